@@ -129,7 +129,7 @@ def gen_cases(rng, n, tier):
                             again=False))
         else:
             out.append(dict(cfg=cfgs[i % len(cfgs)], prog=gen_history(rng), pick=rng.random(), pick2=rng.random(),
-                            again=(i % 4 == 3)))
+                            again=(i % 4 == 3), pending_delete=(i % 7 == 2)))
     return out
 
 
@@ -155,6 +155,9 @@ def corpus():
                                 ['del', 1, 1], ['commit']],
                  fixed_target=[1, 1, 'first', ['article', 'article.labels', 'article.labels.articles']]),
             dict(cfg=cfg, prog=base + [['set', 0, 1, {'a': 2}], ['commit']], fixed_target=[0, 1, 'first', []], again=True),
+            dict(cfg=cfg, prog=base + [['set', 0, 1, {'a': 2}], ['commit']], fixed_target=[0, 1, 'first', []], pending_delete=True),
+            dict(cfg=cfg, prog=base + [['tagto', 1, 1], ['commit'], ['set', 0, 1, {'a': 2}], ['commit']],
+                 fixed_target=[0, 1, 'first', ['tags']], pending_delete=True),
             dict(cfg=cfg, prog=base + [['del', 0, 1], ['commit']], fixed_target=[0, 1, 'del', []]),
             dict(cfg=cfg, prog=base, fixed_target=[1, 1, 'first', ['article']]),
             dict(cfg=cfg, prog=base + [['tagto', 1, 1], ['commit'], ['add', 1, 2, {'a': 1}], ['tagto', 2, 1], ['commit']],
@@ -237,6 +240,10 @@ def _worker(chunk):
                     out.append((idx, dict(skipped=True, exc=None)))
                     continue
                 rv = [['revert', tgt[0], tgt[1], tgt[2], tgt[3]], ['commit']]
+                if case.get('pending_delete'):
+                    # the application has marked the entity for deletion (not flushed yet) and then reverts it in the
+                    # same transaction: the revert wins, the entity is there afterwards
+                    rv = [['del', tgt[0], tgt[1]]] + rv
                 base = case['prog']
                 if case.get('again'):
                     # revert, change the entity again, revert to the SAME version a second time (same session):
@@ -337,7 +344,8 @@ def features(case, obs):
     if obs.get('exc'):
         return ['harness_exception']
     tgt = obs['target']
-    f = ['target_class=%d' % tgt[0], 'rels=' + ','.join(tgt[3]), 'second_revert_to_same_version=%s' % bool(case.get('again'))]
+    f = ['target_class=%d' % tgt[0], 'rels=' + ','.join(tgt[3]), 'second_revert_to_same_version=%s' % bool(case.get('again')),
+         'delete_pending=%s' % bool(case.get('pending_delete'))]
     row = [r for r in obs['before']['vt'] if r['tab'] == tgt[0] and r['key'] == [tgt[1]] and r['tx'] == tgt[2]]
     if row:
         f.append('target_op=%d' % row[0]['op'])
